@@ -550,14 +550,14 @@ pub fn run(ctx: &Ctx) -> &'static str {
     ctx.explore(
         "pure-generated",
         "generated handshake sequences to depth 60 on 2..3 links (REG2 short lengths 2..257, all clock steps) on the real manager; same monitor",
-        ctx.tier.pick(40_000, 1_000_000),
+        ctx.tier.pick(200_000, 2_000_000),
         || pure_strategy(60),
         |_| check_pure,
     );
     ctx.explore(
         "shell",
         "the same alphabet through the real handle_uplink_packet / handle_housekeeping on a real shell incl. start-up probing and the reconnect re-send path; REG frames read off the wire; connected flips only on REG3 on that link",
-        ctx.tier.pick(8_000, 200_000),
+        ctx.tier.pick(30_000, 400_000),
         || pure_strategy(50),
         |_| check_shell,
     );
